@@ -1,5 +1,6 @@
 use vstd::prelude::*;
 verus! {
+//@include specs/std_extra.rs
 pub uninterp spec fn ch_ws(s: Seq<char>) -> bool;
 pub struct Character<'s> { pub str: &'s str }
 impl<'s> Character<'s> {
